@@ -198,7 +198,7 @@ func (e *Engine) doCall(st *State, fr *Frame, dst *ssa.Call, cc *ssa.CallCommon,
 	// push frame and explore the callee to completion, then try to merge the outcomes
 	nf := &Frame{fn: fn, block: fn.Blocks[0], regs: map[ssa.Value]Value{}, visits: map[int]int{}}
 	st.subAlloc++
-	nf.act = canonID(fmt.Sprintf("act|%s|%d", st.curKey, st.subAlloc))
+	nf.act = e.canonID(fmt.Sprintf("act|%s|%d", st.curKey, st.subAlloc))
 	if dst != nil {
 		nf.result = dst
 	}
@@ -530,6 +530,7 @@ func (e *Engine) mergeStates(outs []*State, basePC, mark int, dst *ssa.Call) (*S
 		conds[i] = And(o.pc[basePC:]...)
 	}
 	acc := outs[len(outs)-1].clone()
+	accCond := conds[len(outs)-1]
 	accRet := Value(nil)
 	if dst != nil {
 		accRet = acc.top().regs[dst]
@@ -563,6 +564,9 @@ func (e *Engine) mergeStates(outs []*State, basePC, mark int, dst *ssa.Call) (*S
 			}
 			acc.heap[id] = m
 		}
+		prev := &State{ovf: acc.ovf, sigs: acc.sigs, obs: acc.obs}
+		mergeMeta(acc, o, conds[i], prev, accCond)
+		accCond = Or(conds[i], accCond)
 		// union of allocation logs (order irrelevant for correctness; kept for garbage accounting)
 		seen := map[int]bool{}
 		for _, id := range acc.allocLog {
@@ -793,119 +797,3 @@ func (e *Engine) builtin(st *State, fr *Frame, dst *ssa.Call, b *ssa.Builtin, cc
 	return nil
 }
 
-// ---------- harness vocabulary ----------
-
-func (e *Engine) tagOf(v Value) string {
-	s, ok := v.(StringVal).Concrete()
-	if !ok {
-		unsupported("non-constant tag")
-	}
-	return s
-}
-
-func (e *Engine) harnessCall(st *State, fn *ssa.Function, args []Value) (Value, bool) {
-	switch fn.Name() {
-	case "verifInt", "verifInt64":
-		return e.fresh(e.tagOf(args[0]), BV(64)), true
-	case "verifTime":
-		return StructVal{Fields: []Value{e.fresh(e.tagOf(args[0]), BV(64))}}, true
-	case "verifDuration":
-		return e.fresh(e.tagOf(args[0]), BV(64)), true
-	case "verifBool":
-		return e.fresh(e.tagOf(args[0]), BoolSort), true
-	case "verifByte":
-		return e.fresh(e.tagOf(args[0]), BV(8)), true
-	case "verifChoice":
-		t := e.fresh(e.tagOf(args[0]), BV(64))
-		n := asTerm(args[1])
-		st.pc = append(st.pc, And(BVCmp("bvsge", t, ConstBV(0, 64)), BVCmp("bvslt", t, n)))
-		return t, true
-	case "verifBytes":
-		tag := e.tagOf(args[0])
-		n, ok := e.concreteInt(st, args[1], "verifBytes length")
-		if !ok {
-			unsupported("verifBytes with symbolic length")
-		}
-		bs := make([]*Term, n)
-		for i := range bs {
-			bs[i] = e.fresh(fmt.Sprintf("%s#%d", tag, i), BV(8))
-		}
-		return StringVal{Bytes: bs}, true
-	case "verifAtom":
-		// verifAtom(tag, others, candidates...) : a string that is one of the candidates or one of `others` anonymous strings
-		tag := e.tagOf(args[0])
-		others, _ := e.concreteInt(st, args[1], "others")
-		id := e.fresh(tag, IntSort)
-		var alts []*Term
-		if others > 0 {
-			alts = append(alts, And(IntCmp(">=", id, ConstInt(0)), IntCmp("<", id, ConstInt(int64(others)))))
-		}
-		if sl, ok := args[2].(SliceVal); ok && sl.Obj != 0 {
-			arr := st.heap[sl.Obj].(ArrayVal)
-			for _, c := range arr.Elems[sl.Off : sl.Off+sl.Len] {
-				cs, _ := c.(StringVal).Concrete()
-				alts = append(alts, Eq(id, ConstInt(int64(e.intern(cs)))))
-			}
-		}
-		st.pc = append(st.pc, Or(alts...))
-		var cands []string
-		if sl, ok := args[2].(SliceVal); ok && sl.Obj != 0 {
-			for _, c := range st.heap[sl.Obj].(ArrayVal).Elems[sl.Off : sl.Off+sl.Len] {
-				cs, _ := c.(StringVal).Concrete()
-				cands = append(cands, cs)
-			}
-		}
-		return StringVal{Atom: id, Cands: cands, Others: others}, true
-	case "verifPred":
-		// an uninterpreted predicate of a string's identity: verifPred("validMetricName", s)
-		return e.uf("P_"+sanitize(e.tagOf(args[0])), []*Term{e.strID(args[1].(StringVal))}, BoolSort), true
-	case "verifOpaqueString":
-		e.opaqueSeq++
-		return StringVal{Atom: ConstInt(int64(500000 + e.opaqueSeq)), Others: 1}, true
-	case "verifRegexMatch":
-		return e.uf("M", []*Term{e.strID(args[0].(StringVal)), e.strID(args[1].(StringVal))}, BoolSort), true
-	case "verifAssume":
-		c := asTerm(args[0])
-		if c.IsFalse() {
-			st.dead = true
-			st.why = "assume false"
-			return nil, true
-		}
-		if !c.IsTrue() {
-			st.pc = append(st.pc, c)
-		}
-		return nil, true
-	case "verifAssert":
-		c := asTerm(args[0])
-		msg, _ := args[1].(StringVal).Concrete()
-		e.AssertQ++
-		if c.IsTrue() {
-			return nil, true
-		}
-		r := e.S.Check(st.pc, Not(c))
-		switch r {
-		case Sat:
-			m := e.modelNow()
-			e.S.EndModel()
-			e.Failures = append(e.Failures, Failure{Kind: "assert", Msg: msg, Where: st.top().fn.String(), Model: m})
-		case Unknown:
-			e.S.EndModel()
-			e.Failures = append(e.Failures, Failure{Kind: "unknown", Msg: msg})
-		default:
-			e.S.EndModel()
-		}
-		st.pc = append(st.pc, c)
-		return nil, true
-	case "verifReach":
-		label, _ := args[0].(StringVal).Concrete()
-		if !e.Reached[label] {
-			r := e.S.Check(st.pc, nil)
-			e.S.EndModel()
-			if r == Sat {
-				e.Reached[label] = true
-			}
-		}
-		return nil, true
-	}
-	return nil, false
-}
